@@ -226,6 +226,97 @@ pub fn run(args: &[String]) -> Value {
         }
     }
     o.family("truncated_tags");
+    // IPv6 / IPv4 addresses with a special structure (mapped, compatible, loopback, unspecified, link-local, multicast,
+    // translation prefixes, all-ones): the dissector returns the bytes at the standard positions, whatever they mean
+    let special6: Vec<[u8; 16]> = {
+        let mut v: Vec<[u8; 16]> = vec![[0u8; 16], [0xff; 16]];
+        let mut a = [0u8; 16];
+        a[15] = 1;
+        v.push(a); // ::1
+        for tail in [[192u8, 0, 2, 1], [10, 0, 0, 1], [0, 0, 0, 0], [255, 255, 255, 255]] {
+            let mut m = [0u8; 16];
+            m[10] = 0xff;
+            m[11] = 0xff;
+            m[12..].copy_from_slice(&tail);
+            v.push(m); // ::ffff:a.b.c.d
+            let mut c = [0u8; 16];
+            c[12..].copy_from_slice(&tail);
+            v.push(c); // ::a.b.c.d
+            let mut n = [0u8; 16];
+            n[0] = 0x00;
+            n[1] = 0x64;
+            n[2] = 0xff;
+            n[3] = 0x9b;
+            n[12..].copy_from_slice(&tail);
+            v.push(n); // 64:ff9b::a.b.c.d
+            let mut t = [0u8; 16];
+            t[0] = 0x20;
+            t[1] = 0x02;
+            t[2..6].copy_from_slice(&tail);
+            v.push(t); // 2002:a.b.c.d::
+        }
+        let mut l = [0u8; 16];
+        l[0] = 0xfe;
+        l[1] = 0x80;
+        l[15] = 7;
+        v.push(l);
+        let mut m = [0u8; 16];
+        m[0] = 0xff;
+        m[1] = 0x02;
+        m[15] = 1;
+        v.push(m);
+        v
+    };
+    for sa in &special6 {
+        for da in &special6 {
+            for len in [40usize, 41, 48, 64] {
+                let mut d = random_bytes(&mut r, len);
+                set_version(&mut d, 6);
+                d[8..24].copy_from_slice(sa);
+                d[24..40].copy_from_slice(da);
+                o.packet(&d);
+            }
+        }
+    }
+    for sa in [[0u8, 0, 0, 0], [255, 255, 255, 255], [127, 0, 0, 1], [224, 0, 0, 1], [169, 254, 1, 1]] {
+        for da in [[0u8, 0, 0, 0], [255, 255, 255, 255], [10, 0, 0, 1]] {
+            for len in [20usize, 21, 40, 64] {
+                let mut d = random_bytes(&mut r, len);
+                set_version(&mut d, 4);
+                d[12..16].copy_from_slice(&sa);
+                d[16..20].copy_from_slice(&da);
+                o.packet(&d);
+            }
+        }
+    }
+    o.family("special_addresses");
+    // the dissectors are functions of their input alone: a complete frame / packet, then every prefix of it (longest
+    // first and shortest first), then the complete one again - each call is judged on its own
+    for c in 0..(if extra { 60 } else { 24 }) {
+        let len = [18usize, 20, 22, 40, 44, 60][c % 6];
+        let mut d = random_bytes(&mut r, len);
+        match c % 4 {
+            0 => {
+                put16(&mut d, 12, 0x8100);
+                put16(&mut d, 14, TCIS[c % TCIS.len()]);
+            }
+            1 => put16(&mut d, 12, 0x0800),
+            2 => set_version(&mut d, 4),
+            _ => set_version(&mut d, 6),
+        }
+        for pass in 0..2 {
+            o.frame(&d);
+            o.packet(&d);
+            let cuts: Vec<usize> = if pass == 0 { (0..len).rev().collect() } else { (0..len).collect() };
+            for k in cuts {
+                o.frame(&d[..k]);
+                o.frame(&d);
+                o.packet(&d[..k]);
+                o.packet(&d);
+            }
+        }
+    }
+    o.family("history_independence");
     o.roll();
 
     // ---- sweeps ----------------------------------------------------------------------------------------------------
